@@ -420,14 +420,17 @@ def stream_corpus(ctx: Ctx) -> Stream:
 	from rogw.tranp.syntax.ast.finder import ASTFinder
 	cases = []
 	for name, w in load_corpus().items():
-		if w.get('kind') != 'dict':
+		if w.get('kind') not in ('dict', 'history'):
 			continue
 		root, nodes, table = nodes_of_dict(w['tree'], w['resolvable'])
 		finder = shared_finder()
 		pf = finder.full_pathfy(root)
 		ops: list[list[str]] = [['tree', trees.dict_sexp(w['tree'])], table_line(table, ('T', 'always')).split('\t'), ['pathfy']]
-		for p in pf.keys():
-			ops += [['expandp', p], ['expand', p], ['expandsafe', p], ['values', p], ['groupby', p, '3'], ['groupby', p, '-1'], ['groupby', p, '1']]
+		if w['kind'] == 'history':
+			ops += w['ops']
+		else:
+			for p in pf.keys():
+				ops += [['expandp', p], ['expand', p], ['expandsafe', p], ['values', p], ['groupby', p, '3'], ['groupby', p, '-1'], ['groupby', p, '1']]
 		lines, real = [], []
 		for op in ops:
 			lines.append('\t'.join(op))
@@ -435,11 +438,106 @@ def stream_corpus(ctx: Ctx) -> Stream:
 				real.append(f'ok {trees.entry_size(root)}')
 			elif op[0] == 'table':
 				real.append('ok')
+			elif op[0] == 'clear':
+				_, nodes, _ = nodes_of_dict(w['tree'], w['resolvable'])  # a fresh Nodes: empty instance cache and memo
+				real.append('ok')
 			else:
 				real.append(real_op(finder, nodes, root, pf, op, True))
 		cases.append(({'kind': 'corpus:' + name, 'entries': len(pf)}, lines, real))
 	st = common.correspond('tree-corpus', cases, 'tree', classify=lambda d: d['kind'])
 	st.note = 'regression witness r(list(x) list_comp) and witness trees of C10.expand_relativefy_counterexample / expand_depth3_counterexample: expand, expandp, expandsafe, values, groupby on every path'
+	return st
+
+
+# ---------------------------------------------------------------------------------------------
+# the EntryPath algebra on arbitrary strings
+
+
+EP_ELEMS = ['a', 'b', 'ab', 'list', 'list_comp', 'a[0]', 'a[1]', 'b[2]', 'a[10]', 'a[12]', 'ab[123]', 'x[007]', 'a[-1]', 'a[x]', 'a[1][2]', 'a[]', 'a]', '[', ']', 'a[', 'a[1', '[1]', '', '', '__empty__', '__empty__[3]', 'a#b', 'r']
+
+
+def gen_path_string(rng: random.Random) -> str:
+	n = rng.choice([0, 1, 1, 2, 2, 3, 3, 4, 5, 7])
+	return '.'.join(rng.choice(EP_ELEMS) for _ in range(n))
+
+
+def real_ep(op: list[str]) -> str:
+	from rogw.tranp.syntax.ast.path import EntryPath
+	try:
+		k, a = op[0], op[1:]
+		if k == 'ep.valid':
+			return str(EntryPath(a[0]).valid).lower()
+		if k == 'ep.joined':
+			return hx(EntryPath(a[0]).joined(a[1]))
+		if k == 'ep.identify':
+			return hx(EntryPath.identify(a[0], a[1], int(a[2])).origin)
+		if k == 'ep.first':
+			t, i = EntryPath(a[0]).first
+			return f'ok {hx(t)} {i}'
+		if k == 'ep.last':
+			t, i = EntryPath(a[0]).last
+			return f'ok {hx(t)} {i}'
+		if k == 'ep.shift':
+			return hx(EntryPath(a[0]).shift(int(a[1])).origin)
+		if k == 'ep.parenttag':
+			return f'ok {hx(EntryPath(a[0]).parent_tag)}'
+		if k == 'ep.deidentify':
+			return hx(EntryPath(a[0]).de_identify().origin)
+		if k == 'ep.elements':
+			return ','.join(hx(e) for e in EntryPath(a[0]).elements)
+		if k == 'ep.contains':
+			return str(EntryPath(a[0]).contains(a[1])).lower()
+		if k == 'ep.only':
+			return str(EntryPath(a[0]).consists_of_only(*a[1])).lower()
+		if k == 'ep.escaped':
+			return hx(EntryPath(a[0]).escaped_origin)
+		if k == 'ep.relativefy':
+			return f'ok {hx(EntryPath(a[0]).relativefy(a[1]).origin)}'
+		raise AssertionError(op)
+	except Exception as e:  # noqa: BLE001
+		return exc_enum(e)
+
+
+def ep_line(op: list[Any]) -> str:
+	k = op[0]
+	if k == 'ep.only':
+		return '\t'.join([k, hx(op[1]), ','.join(hx(t) for t in op[2])])
+	if k in ('ep.shift',):
+		return '\t'.join([k, hx(op[1]), str(op[2])])
+	if k == 'ep.identify':
+		return '\t'.join([k, hx(op[1]), hx(op[2]), str(op[3])])
+	return '\t'.join([k, *[hx(x) for x in op[1:]]])
+
+
+def stream_path_algebra(ctx: Ctx) -> Stream:
+	"""EntryPath (valid, joined, identify, first, last, shift, parent_tag, de_identify, elements, contains, consists_of_only,
+	escaped_origin, relativefy) on well-formed paths of random trees and on malformed strings."""
+	from rogw.tranp.syntax.ast.entry import EntryOfDict
+	rng = ctx.sub_rng('path-algebra')
+	cases = []
+	for i in range(ctx.scale(60, 600)):
+		strings: list[str] = []
+		if i % 2 == 0:
+			walk = trees.walk_entries(EntryOfDict(trees.gen_dict_tree(rng, 2 + i % 4, 3 + i % 9)))
+			strings = [p for p, _ in rng.sample(walk, min(5, len(walk)))]
+		strings += [gen_path_string(rng) for _ in range(5)]
+		ops: list[list[Any]] = []
+		for p in strings:
+			els = p.split('.')
+			tagset = [tag_of(e) for e in els]
+			ops += [['ep.valid', p], ['ep.first', p], ['ep.last', p], ['ep.parenttag', p], ['ep.deidentify', p], ['ep.elements', p], ['ep.escaped', p]]
+			ops += [['ep.shift', p, k] for k in rng.sample([-9, -3, -2, -1, 0, 1, 2, 3, 9], 3)]
+			ops.append(['ep.joined', p, rng.choice([gen_path_string(rng), 'x', ''])])
+			ops.append(['ep.identify', p, rng.choice(['a', 'list', '']), rng.choice([0, 1, 9, 10, 11, 99, 100, 12345, -1])])
+			ops.append(['ep.contains', p, rng.choice(tagset) if rng.random() < 0.6 else rng.choice(['a', 'zz', ''])])
+			ops.append(['ep.only', p, rng.sample(sorted(set(tagset) | {'a', 'b'}), rng.randint(0, min(3, len(set(tagset) | {'a', 'b'}))))])
+			starts = '.'.join(els[:rng.randint(0, len(els))]) if rng.random() < 0.7 else gen_path_string(rng)
+			ops.append(['ep.relativefy', p, starts])
+		lines = [ep_line(op) for op in ops]
+		real = [real_ep(op) for op in ops]
+		cases.append(({'kind': 'wf+malformed' if i % 2 == 0 else 'malformed', 'ops': len(ops)}, lines, real))
+	st = common.correspond('path-algebra', cases, 'tree', classify=lambda d: d['kind'])
+	st.note = 'EntryPath algebra on well-formed paths of random trees (indices up to 3 digits through identify) and malformed strings (empty elements, stray brackets, non-numeric / negative / multiple indices, #)'
 	return st
 
 
@@ -729,6 +827,13 @@ def search_expand(ctx: Ctx) -> SearchResult:
 	latent: list[str] = []
 	# the witnesses of the counterexample theorems, replayed on the real Nodes (synthetic tag sets: latent, not findings)
 	for name, w in load_corpus().items():
+		if w.get('kind') == 'history':
+			root, nodes, _ = nodes_of_dict(w['tree'], w['resolvable'])
+			pf = shared_finder().full_pathfy(root)
+			outs = [real_op(shared_finder(), nodes, root, pf, op, True) for op in w['ops'][:w['probe'] + 1]]
+			latent.append(f"{name}: after {w['ops'][:w['probe']]} the real {w['ops'][w['probe']]} = {outs[-1]}, the tree says {w['tree_says']}, reproduced = {outs[-1] != w['tree_says']}")
+			bump('latent-witness-reproduced' if outs[-1] != w['tree_says'] else 'latent-witness-not-reproduced')
+			continue
 		if w.get('kind') != 'dict':
 			continue
 		_, nodes, _ = nodes_of_dict(w['tree'], w['resolvable'])
@@ -900,35 +1005,56 @@ STATEMENTS = {
 	'expand_spec_full': 'with, in addition, nothing expandable deeper than three levels: expand(via) = nearest resolvable descendants + terminals without a resolvable ancestor below via (no depth cap)',
 	'expand_relativefy_counterexample': '_counterexample: without RelativefySafe expand_spec is false — via r, terminal r.ar.t, a resolvable: origin.split(starts)[1] truncates the relative path (synthetic tags only: latent)',
 	'expand_depth3_counterexample': '_counterexample: three levels do not suffice in general — a resolvable entry four levels below via behind unresolvable tree entries is missed (not reachable in the real grammar as far as the search sees: latent)',
+	'break_tag_join': 'EntryPath.identify then .last (__break_tag) returns (tag, index) for every index of any number of digits (well-formed origin and tag)',
+	'path_first_last': 'EntryPath.first / .last of an encoded path = tag and index (-1 = none) of its first / last element',
+	'path_shift': 'EntryPath.shift(k) = drop k leading elements, shift(-k) = drop the last k (Python slice clamping), on encoded paths',
+	'path_joined': 'EntryPath.joined concatenates the element lists',
+	'path_parent_tag': 'EntryPath.parent_tag = tag of the last but one element',
+	'path_contains': 'EntryPath.contains / consists_of_only speak about the element tags with indices stripped',
+	'resolve_list_order': 'resolving a list of paths (children / siblings / expand results) gives the same classes from every reachable instance cache as from the empty one',
+	'memo_keys_injective': 'the memo keys GENERATED from query.py determine the query: same key => same query (ancestor.{via}#{tag}: for via free of #)',
+	'memo_transparent': 'on one Nodes instance, after any history of queries (memoised or not, failing or not) every query returns what the memo-free evaluation on a fresh resolver returns, for every world (Memoize.get keeps the first factory per key; keys generated from the source)',
+	'memo_key_counterexample': '_counterexample: without the #-condition transparency is false — ancestor(r.a, b#r) and ancestor(r.a#b, r) share the key ancestor.r.a#b#r (latent: no lark name contains #; replayed on the real Nodes)',
 	'resolve_order': 'for every World (tree, cache, class table, features) and every instance cache reachable by any sequence of successful Nodes.by resolutions, the class returned for p equals the cache-free first-accepting-class choice classOf',
 	'resolve_order_queries': 'the same for an explicit list of earlier Nodes.by queries (failing ones included) starting from the empty instance cache',
 }
 
 
 def run(ctx: Ctx) -> int:
+	translate_ok, translate_msg = True, ''
+	with ctx.timed('translate'):
+		try:
+			from translate import gen_nodes_memo
+			ctx.generated_tables.extend(gen_nodes_memo.generate())
+		except Exception as e:  # noqa: BLE001 - an unrecognised shape of the memo calls breaks the tie (DESIGN §2.5)
+			translate_ok, translate_msg = False, f'{type(e).__name__}: {e}'
+			ctx.notes.append(f'translator failed: {translate_msg}')
+			print(f'[{PROP}] translator failed (the tie is broken): {translate_msg}')
 	proof = common.prove(ctx, PROP, leanchecker=ctx.thorough)
 	with ctx.timed('correspondence'):
-		streams = [stream_corpus(ctx), stream_random(ctx), stream_real(ctx)]
+		streams = [stream_corpus(ctx), stream_path_algebra(ctx), stream_random(ctx), stream_real(ctx)]
 	with ctx.timed('search'):
 		searches = [search_laws(ctx), search_queries(ctx), search_expand(ctx), search_expand_real(ctx), search_resolve_order(ctx)]
 	return common.finish(ctx, proof, streams, searches,
+		translate_ok=translate_ok, translate_msg=translate_msg,
 		statements=STATEMENTS,
 		partial={
 			'proved': 'each entry has exactly one full path and lookup returns that entry (pluck_pathfy, paths_nodup, count on element paths; '
 				'pathfyS_encoded, keys_nodup, fullPathfy_encoded, countS, pluckS_pathfyS on the strings, through codec_int/elem/path/inj); '
-				'ids follow document order (ids_preorder, cache_by); children / parent / siblings / ancestor agree with the tree and with each other '
+				'the EntryPath algebra acts as list operations on elements (break_tag_join for every index, path_first_last, path_shift, path_joined, path_parent_tag, path_contains); ids follow document order (ids_preorder, cache_by); children / parent / siblings / ancestor agree with the tree and with each other '
 				'(children_agree, children_entries, parent_nearest, parent_of_child, siblings_agree, siblings_root, ancestor_nearest — on the path lists before class resolution); '
 				'group_by for every depth, values (subtree_enumeration, groupBy_depth/unbounded/zero, values_document_order); '
 				'expand agrees with the tree under RelativefySafe (expand_spec, expand_spec_full) and provably not without it / beyond three levels '
 				'(expand_relativefy_counterexample, expand_depth3_counterexample: latent, synthetic tag sets only); '
-				'the node class is independent of earlier queries (resolve_order, resolve_order_queries) — all on the model, for all trees / worlds',
-			'correspondence_only': 'the real match_feature functions are pure functions of (tree, path) — validated by query permutations on real modules; '
-				'the node-instance memoisation inside Nodes (Memoize) is not modelled (every op is a function of the tree and the table)',
+				'the node class is independent of earlier queries (resolve_order, resolve_order_queries, resolve_list_order) and the query memo of Nodes is transparent for every history (memo_keys_injective over the generated keys, memo_transparent; memo_key_counterexample for via containing #) — all on the model, for all trees / worlds',
+			'correspondence_only': 'EntryPath.escaped_origin, EntryPath.valid and the algebra on malformed strings (stream path-algebra); the Memo/Memoize semantics (first factory kept, exception not cached) as modelled in Model/NodesMemo.lean; the real match_feature functions are pure functions of (tree, path) — validated by query permutations on real modules; '
+				'match_feature implementations that call back into Nodes fill the real memo / instance cache with extra entries the model does not create (observationally equal by memo_transparent)',
 			'search_only': 'that no expandable entry of a real parse tree lies deeper than three levels below its node and that RelativefySafe holds there (every entry path of real parse trees: expand = uncapped tree computation)',
 		},
 		assumptions=[
 			'tags are non-empty and free of ".", "[" and "]" (true of every lark rule/terminal name and of __empty__)',
 			"int() spellings other than ASCII digits with optional '-' are outside the model and never generated",
+			'memo_transparent: no ancestor query with a # in via (true of every path over lark names)',
 			'expand_spec: RelativefySafe (relativefy(via) yields the true relative tags for the terminals below via); decidable and re-computed on the real objects by the expandsafe op',
 		],
 		trusted=['EntryOfDict/EntryOfLark expose the tree faithfully (C15 covers the lark side)'])
